@@ -113,12 +113,9 @@ impl Parser for GoModParser {
                 // Byte offset of this line in the document (`lines()` yields subslices of
                 // `content`, so this also holds for CRLF line endings)
                 let line_start = line.as_ptr() as usize - content.as_ptr() as usize;
-                // Find actual position in the original line (not trimmed)
-                let require_pos = line.find("require").unwrap_or(0);
-                let version_pos_in_line = line[require_pos..]
-                    .find(version)
-                    .map(|p| require_pos + p)
-                    .unwrap_or(0);
+                // The regex ran on the trimmed line: add the leading whitespace back
+                let version_pos_in_line =
+                    line.len() - line.trim_start().len() + version_match.start();
                 let version_start = line_start + version_pos_in_line;
                 let version_end = version_start + version.len();
 
